@@ -219,6 +219,9 @@ func (n *Tree[V]) delNode(path string, matcher ValueMatcher[V], inStaticToken bo
 
 		if newSize == 0 {
 			n.backtrackingEnabled = true
+			// the key names belong to the values; a node which is kept only for its
+			// children must not veto the key names of a later path ending here
+			n.wildcardKeys = nil
 		}
 
 		return oldSize != newSize
